@@ -560,6 +560,8 @@ structure TabOk (T : Tab) : Prop where
   not_word : ∀ c ∈ ['/', ':', '.', ',', '=', '"', '\'', '\\', '\n', '-', '+', '*', '@', '[', ']', '%', ' '], T.word c = false
   /-- ASCII digits are matched by `\w` -/
   digit_word : ∀ c, isDigit c = true → T.word c = true
+  /-- on ASCII characters lower() is the ASCII mapping -/
+  lower_ascii : ∀ c : Char, c.toNat < 128 → T.lower c = [lowerAscii c]
 
 theorem ofNat_small : ∀ n, n < 128 → (Char.ofNat n).toNat = n := by decide
 
@@ -587,6 +589,7 @@ theorem asciiTabOk : TabOk asciiTab where
   fold_lower s := by simp [ascii_lowerS, ascii_foldS, lowerAscii_idem]
   lower_idem s := by simp [ascii_lowerS, lowerAscii_idem]
   not_word := by decide
+  lower_ascii c _ := rfl
   digit_word c h := by
     simp only [isDigit, Bool.and_eq_true, decide_eq_true_eq] at h
     have e0 : ('0' : Char).toNat = 48 := by decide
@@ -812,36 +815,47 @@ theorem kbVals_total {T : Tab} {rec : Str → Except PyExc Path} : ∀ (l : List
 theorem stripQuotes_len (v : Str) : (stripQuotes v).length ≤ v.length := by
   simp [stripQuotes]; omega
 
+theorem stepPrefix_len {T : Tab} {s : Str} {h : Head} {c : Str} {assigns : List (Str × Str)}
+    (e : stepPrefix T s = some (h, c, assigns)) : ∀ kv ∈ assigns, kv.2.length < s.length := by
+  unfold stepPrefix at e
+  split at e
+  · simp at e
+  · rename_i hd hph
+    have hlen := parseHead_len hph
+    split at e
+    · rename_i body hbody
+      split at e
+      · simp at e
+      · cases hsa : scanAssigns T ((body.takeWhile (· != '\n')).length + 1) (body.takeWhile (· != '\n')) with
+        | none => simp [hsa] at e
+        | some l =>
+          simp [hsa] at e
+          obtain ⟨_, _, rfl⟩ := e
+          intro kv hkv
+          have a := scanAssigns_len _ _ _ hsa kv hkv
+          have b := takeWhile_len (· != '\n') body
+          have c := dropWhile_len T.word hd.rest
+          rw [hbody] at c; simp at c
+          omega
+    · simp at e
+
 theorem fromUriStep_total {T : Tab} {rec : Str → Except PyExc Path} {s : Str}
     (h : ∀ t : Str, t.length < s.length → OnlyValueError (rec t)) : OnlyValueError (fromUriStep T rec s) := by
   unfold fromUriStep
   split
   · simp [OnlyValueError]
-  · rename_i hd hph
-    have hlen := parseHead_len hph
-    simp only
+  · rename_i hd c assigns hsp
+    have hall : ∀ kv ∈ assigns, OnlyValueError (rec (unescape (stripQuotes kv.2))) := by
+      intro kv hkv
+      apply h
+      have a := stepPrefix_len hsp kv hkv
+      have d := unescape_len (stripQuotes kv.2)
+      have e := stripQuotes_len kv.2
+      omega
+    have := kbVals_total (T := T) assigns hall
     split
-    · rename_i body hbody
-      split
-      · simp [OnlyValueError]
-      · split
-        · simp [OnlyValueError]
-        · rename_i assigns hsa
-          have hall : ∀ kv ∈ assigns, OnlyValueError (rec (unescape (stripQuotes kv.2))) := by
-            intro kv hkv
-            apply h
-            have a := scanAssigns_len _ _ _ hsa kv hkv
-            have b := takeWhile_len (· != '\n') body
-            have c := dropWhile_len T.word hd.rest
-            rw [hbody] at c; simp at c
-            have d := unescape_len (stripQuotes kv.2)
-            have e := stripQuotes_len kv.2
-            omega
-          have := kbVals_total (T := T) assigns hall
-          split
-          · rename_i e he; rw [he] at this; simpa [OnlyValueError] using this
-          · trivial
-    · simp [OnlyValueError]
+    · rename_i e he; rw [he] at this; simpa [OnlyValueError] using this
+    · trivial
 
 theorem fromUriF_total (T : Tab) : ∀ (n : Nat) (s : Str), s.length < n → OnlyValueError (fromUriF T n s) := by
   intro n
@@ -851,5 +865,1410 @@ theorem fromUriF_total (T : Tab) : ∀ (n : Nat) (s : Str), s.length < n → Onl
     intro s h
     simp only [fromUriF]
     exact fromUriStep_total (fun t ht => ih t (by omega))
+
+/-! ### more fuel never changes an answer -/
+
+/-- `r2` agrees with `r1` wherever `r1` did not run out of fuel -/
+def Extends (r1 r2 : Str → Except PyExc Path) : Prop :=
+  ∀ t, r1 t ≠ .error .recursionError → r2 t = r1 t
+
+theorem kbVal_mono {T : Tab} {r1 r2 : Str → Except PyExc Path} (hx : Extends r1 r2) (v : Str)
+    (h : kbVal T r1 v ≠ .error .recursionError) : kbVal T r2 v = kbVal T r1 v := by
+  unfold kbVal at h ⊢
+  split
+  · rename_i hq
+    simp only [hq, if_true] at h ⊢
+    have key : r1 (unescape (stripQuotes v)) ≠ .error .recursionError := by
+      intro e; rw [e] at h; exact h rfl
+    rw [hx _ key]
+  · rfl
+
+theorem kbVals_mono {T : Tab} {r1 r2 : Str → Except PyExc Path} (hx : Extends r1 r2) :
+    ∀ l : List (Str × Str), kbVals T r1 l ≠ .error .recursionError → kbVals T r2 l = kbVals T r1 l
+  | [], _ => by simp [kbVals]
+  | (k, v) :: r, h => by
+    unfold kbVals at h ⊢
+    cases e1 : kbVal T r1 v with
+    | error e =>
+      have : kbVal T r1 v ≠ .error .recursionError := by
+        intro e'; rw [e'] at h; exact h rfl
+      rw [kbVal_mono hx v this, e1]
+    | ok x =>
+      have : kbVal T r1 v ≠ .error .recursionError := by rw [e1]; intro e'; cases e'
+      rw [kbVal_mono hx v this, e1]
+      rw [e1] at h
+      simp only at h ⊢
+      have hr : kbVals T r1 r ≠ .error .recursionError := by
+        intro e'; rw [e'] at h; exact h rfl
+      rw [kbVals_mono hx r hr]
+
+theorem fromUriStep_mono {T : Tab} {r1 r2 : Str → Except PyExc Path} (hx : Extends r1 r2) (s : Str)
+    (h : fromUriStep T r1 s ≠ .error .recursionError) : fromUriStep T r2 s = fromUriStep T r1 s := by
+  unfold fromUriStep at h ⊢
+  cases hsp : stepPrefix T s with
+  | none => rfl
+  | some x =>
+    obtain ⟨hd, c, assigns⟩ := x
+    simp only [hsp] at h ⊢
+    have hk : kbVals T r1 assigns ≠ .error .recursionError := by
+      intro e'; rw [e'] at h; exact h rfl
+    rw [kbVals_mono hx assigns hk]
+
+theorem fromUriF_extends (T : Tab) : ∀ n, Extends (fromUriF T n) (fromUriF T (n + 1)) := by
+  intro n
+  induction n with
+  | zero => intro t h; exact absurd rfl h
+  | succ n ih =>
+    intro t h
+    simp only [fromUriF] at h ⊢
+    exact fromUriStep_mono ih t h
+
+theorem fromUriF_mono (T : Tab) {n m : Nat} (hnm : n ≤ m) {t : Str} (h : fromUriF T n t ≠ .error .recursionError) :
+    fromUriF T m t = fromUriF T n t := by
+  induction hnm with
+  | refl => rfl
+  | step hle ih => rw [← ih]; exact fromUriF_extends T _ t (by rw [ih]; exact h)
+
+/-! ### round trip, step 1: tokens of the keybinding regex -/
+
+/-- a printed value is one `_KB_VAL` token when followed by the end or a comma, and has no newline -/
+structure Tok (pv : Str) : Prop where
+  nonl : ∀ c ∈ pv, c ≠ '\n'
+  scan : ∀ rest, (rest = [] ∨ ∃ r, rest = ',' :: r) → scanVal (pv ++ rest) = some (pv, rest)
+
+theorem takeWhile_all {p : Char → Bool} {a : Str} (h : ∀ c ∈ a, p c = true) (b : Str) :
+    (a ++ b).takeWhile p = a ++ b.takeWhile p := List.takeWhile_append_of_pos h
+theorem dropWhile_all {p : Char → Bool} {a : Str} (h : ∀ c ∈ a, p c = true) (b : Str) :
+    (a ++ b).dropWhile p = b.dropWhile p := List.dropWhile_append_of_pos h
+
+theorem takeWhile_stop {p : Char → Bool} {a : Str} (h : ∀ c ∈ a, p c = true) {x : Char} (hx : p x = false) (b : Str) :
+    (a ++ x :: b).takeWhile p = a := by
+  rw [takeWhile_all h]; simp [hx]
+theorem dropWhile_stop {p : Char → Bool} {a : Str} (h : ∀ c ∈ a, p c = true) {x : Char} (hx : p x = false) (b : Str) :
+    (a ++ x :: b).dropWhile p = x :: b := by
+  rw [dropWhile_all h]; simp [hx]
+theorem takeWhile_end {p : Char → Bool} {a : Str} (h : ∀ c ∈ a, p c = true) : a.takeWhile p = a := by
+  have := takeWhile_all h []; simpa using this
+theorem dropWhile_end {p : Char → Bool} {a : Str} (h : ∀ c ∈ a, p c = true) : a.dropWhile p = [] := by
+  have := dropWhile_all h []; simpa using this
+
+theorem tok_unquoted {pv : Str} (hne : pv ≠ []) (h : ∀ c ∈ pv, nqChar c = true ∧ c ≠ '\n') : Tok pv where
+  nonl c hc := (h c hc).2
+  scan rest hr := by
+    cases pv with
+    | nil => exact absurd rfl hne
+    | cons x xs =>
+      have hx := (h x (by simp)).1
+      have hall : ∀ c ∈ x :: xs, nqChar c = true := fun c hc => (h c hc).1
+      have tk : ((x :: xs) ++ rest).takeWhile nqChar = x :: xs := by
+        rcases hr with rfl | ⟨r, rfl⟩
+        · simpa using takeWhile_end hall
+        · exact takeWhile_stop hall (by decide) r
+      have dk : ((x :: xs) ++ rest).dropWhile nqChar = rest := by
+        rcases hr with rfl | ⟨r, rfl⟩
+        · simpa using dropWhile_end hall
+        · exact dropWhile_stop hall (by decide) r
+      have hx1 : x ≠ '\'' := by intro e; subst e; revert hx; decide
+      have hx2 : x ≠ '"' := by intro e; subst e; revert hx; decide
+      unfold scanVal
+      split
+      · rename_i heq; simp at heq; exact absurd heq.1 hx1
+      · rename_i heq; simp at heq; exact absurd heq.1 hx2
+      · rw [tk, dk]; simp
+
+theorem escape_nonl {s : Str} (h : ∀ c ∈ s, c ≠ '\n') : ∀ c ∈ escape s, c ≠ '\n' := by
+  intro c hc
+  rw [escape_eq] at hc
+  simp only [List.mem_flatMap] at hc
+  obtain ⟨x, hx, hcx⟩ := hc
+  have := h x hx
+  unfold escChar at hcx
+  split at hcx
+  · simp at hcx; rcases hcx with rfl | rfl <;> decide
+  · split at hcx
+    · simp at hcx; rcases hcx with rfl | rfl <;> decide
+    · simp at hcx; subst hcx; exact this
+
+theorem tok_quoted_escape {s : Str} (h : ∀ c ∈ s, c ≠ '\n') : Tok (quote (escape s)) where
+  nonl c hc := by
+    simp only [quote, List.mem_cons, List.mem_append, List.not_mem_nil, or_false] at hc
+    rcases hc with rfl | hc | rfl
+    · decide
+    · exact escape_nonl h c hc
+    · decide
+  scan rest _ := by simp [scanVal, quote, scanQuoted_escape]
+
+theorem tok_quoted_plain {s : Str} (h : ∀ c ∈ s, c ≠ '"' ∧ c ≠ '\\' ∧ c ≠ '\n') : Tok (quote s) where
+  nonl c hc := by
+    simp only [quote, List.mem_cons, List.mem_append, List.not_mem_nil, or_false] at hc
+    rcases hc with rfl | hc | rfl
+    · decide
+    · exact (h c hc).2.2
+    · decide
+  scan rest _ := by
+    have := scanQuoted_plain '"' s rest (fun c hc => ⟨(h c hc).1, (h c hc).2.1⟩) (by decide)
+    simp [scanVal, quote, this]
+
+/-- `\w+=VAL` on a printed `name=value` -/
+theorem scanAssign_item {T : Tab} (hT : TabOk T) {k pv : Str} (hk : k ≠ [] ∧ ∀ c ∈ k, T.word c = true) (ht : Tok pv)
+    (rest : Str) (hr : rest = [] ∨ ∃ r, rest = ',' :: r) :
+    scanAssign T (k ++ '=' :: pv ++ rest) = some ((k, pv), rest) := by
+  have heq : T.word '=' = false := hT.not_word '=' (by simp)
+  unfold scanAssign
+  have e1 : (k ++ '=' :: pv ++ rest).takeWhile T.word = k := by
+    have : k ++ '=' :: pv ++ rest = k ++ '=' :: (pv ++ rest) := by simp
+    rw [this]; exact takeWhile_stop hk.2 heq _
+  have e2 : (k ++ '=' :: pv ++ rest).dropWhile T.word = '=' :: (pv ++ rest) := by
+    have : k ++ '=' :: pv ++ rest = k ++ '=' :: (pv ++ rest) := by simp
+    rw [this]; exact dropWhile_stop hk.2 heq _
+  simp only [e1, e2, hk.1, if_false, ht.scan rest hr, Option.map_some]
+
+def itemStr (kv : Str × Str) : Str := kv.1 ++ '=' :: kv.2
+
+theorem joinComma_cons2 (a b : Str) (r : List Str) : joinComma (a :: b :: r) = a ++ ',' :: joinComma (b :: r) := rfl
+
+/-- WBEM_URI_KEYBINDINGS_REGEXP / FINDALL on the printed keybindings -/
+theorem scanAssigns_items {T : Tab} (hT : TabOk T) : ∀ (items : List (Str × Str)), items ≠ [] →
+    (∀ kv ∈ items, (kv.1 ≠ [] ∧ ∀ c ∈ kv.1, T.word c = true) ∧ Tok kv.2) →
+    ∀ f, items.length ≤ f → scanAssigns T f (joinComma (items.map itemStr)) = some items
+  | [], hne, _, _, _ => absurd rfl hne
+  | [a], _, h, f, hf => by
+    cases f with
+    | zero => simp at hf
+    | succ f =>
+      have ha := h a (by simp)
+      have := scanAssign_item hT ha.1 ha.2 [] (Or.inl rfl)
+      simp only [List.append_nil] at this
+      simp only [List.map, joinComma, itemStr, scanAssigns, this]
+  | a :: b :: r, _, h, f, hf => by
+    cases f with
+    | zero => simp at hf
+    | succ f =>
+      have ha := h a (by simp)
+      have ih := scanAssigns_items hT (b :: r) (by simp) (fun kv hkv => h kv (by simp [hkv])) f (by simp at hf ⊢; omega)
+      have := scanAssign_item hT ha.1 ha.2 (',' :: joinComma ((b :: r).map itemStr)) (Or.inr ⟨_, rfl⟩)
+      simp only [List.map, joinComma_cons2, itemStr] at this ih ⊢
+      simp only [scanAssigns, this, ih, Option.map_some]
+
+theorem joinComma_nonl : ∀ (l : List Str), (∀ x ∈ l, ∀ c ∈ x, c ≠ '\n') → ∀ c ∈ joinComma l, c ≠ '\n'
+  | [], _, c, hc => by simp [joinComma] at hc
+  | [a], h, c, hc => h a (by simp) c (by simpa [joinComma] using hc)
+  | a :: b :: r, h, c, hc => by
+    rw [joinComma_cons2] at hc
+    simp only [List.mem_append, List.mem_cons] at hc
+    rcases hc with hc | rfl | hc
+    · exact h a (by simp) c hc
+    · decide
+    · exact joinComma_nonl (b :: r) (fun x hx => h x (by simp [hx])) c hc
+
+theorem joinComma_length : ∀ (l : List Str), (∀ x ∈ l, x ≠ []) → l.length ≤ (joinComma l).length + 1
+  | [], _ => by simp
+  | [a], _ => by simp
+  | a :: b :: r, h => by
+    have := joinComma_length (b :: r) (fun x hx => h x (by simp [hx]))
+    rw [joinComma_cons2]; simp at this ⊢; omega
+
+theorem mem_joinComma_len : ∀ (l : List Str) (x : Str), x ∈ l → x.length ≤ (joinComma l).length
+  | [a], x, hx => by simp at hx; subst hx; exact Nat.le_refl _
+  | a :: b :: r, x, hx => by
+    rw [joinComma_cons2]
+    rcases List.mem_cons.mp hx with rfl | hx
+    · simp
+    · have := mem_joinComma_len (b :: r) x hx; simp at this ⊢; omega
+
+/-! ### round trip, step 2: the host / namespace / class part -/
+
+structure HeadSafe (T : Tab) (fmt : Fmt) (h n : Option Str) (c : Str) : Prop where
+  fmt_ok : fmt ≠ .cimobject
+  host : ∀ x, h = some x → caseOf T fmt x ≠ [] ∧ ∀ ch ∈ caseOf T fmt x, authChar T ch = true
+  ns : ∀ x, n = some x → nsOk (caseOf T fmt x) = true ∧ ∀ ch ∈ caseOf T fmt x, nsChar T ch = true
+  cls : caseOf T fmt c ≠ [] ∧ ∀ ch ∈ caseOf T fmt c, T.word ch = true
+  hist : fmt = .historical → h.isSome = true → n.isSome = true
+
+theorem stripScheme_none {T : Tab} {s : Str} (h : ∀ r, s.dropWhile (schemeChar T) ≠ ':' :: '/' :: r) :
+    stripScheme T s = (false, s) := by
+  unfold stripScheme
+  split
+  · rename_i r heq; exact absurd heq (h r)
+  · rfl
+
+theorem stripAuth_none {T : Tab} {s : Str} (h : ∀ r, s ≠ '/' :: '/' :: r) : stripAuth T s = (none, s) := by
+  unfold stripAuth
+  split
+  · rename_i r; exact absurd rfl (h r)
+  · rfl
+
+theorem nsOk_head {x : Char} {r : Str} (h : nsOk (x :: r) = true) : x ≠ '/' := by
+  intro e; subst e; simp [nsOk, nsOkAux] at h
+
+theorem nsOk_ne_nil {p : Str} (h : nsOk p = true) : p ≠ [] := by
+  intro e; subst e; simp [nsOk, nsOkAux] at h
+
+theorem nsOk_of_word {T : Tab} (hT : TabOk T) : ∀ {p : Str}, p ≠ [] → (∀ c ∈ p, T.word c = true) → nsOk p = true := by
+  have hs : T.word '/' = false := hT.not_word '/' (by simp)
+  have aux : ∀ (p : Str) (b : Bool), (∀ c ∈ p, T.word c = true) → (p ≠ [] ∨ b = false) → nsOkAux b p = true := by
+    intro p
+    induction p with
+    | nil => intro b _ h; rcases h with h | h; exact absurd rfl h; simp [nsOkAux, h]
+    | cons x r ih =>
+      intro b hall _
+      have hx : x ≠ '/' := by intro e; subst e; have := hall '/' (by simp); rw [hs] at this; cases this
+      simp only [nsOkAux, hx, if_false]
+      exact ih false (fun c hc => hall c (by simp [hc])) (Or.inr rfl)
+  intro p hne hall
+  exact aux p true hall (Or.inl hne)
+
+theorem splitNs_some {T : Tab} (hT : TabOk T) {N : Str} (hok : nsOk N = true) (hall : ∀ c ∈ N, nsChar T c = true)
+    (p0 : Bool) (r : Str) : splitNs T p0 (N ++ ':' :: r) = some (some N, r) := by
+  have hc : nsChar T ':' = false := by simp [nsChar, hT.not_word ':' (by simp)]
+  unfold splitNs
+  rw [takeWhile_stop hall hc, dropWhile_stop hall hc, hok]
+  rfl
+
+theorem splitNs_colon {T : Tab} (hT : TabOk T) (p0 : Bool) (r : Str) : splitNs T p0 (':' :: r) = some (none, r) := by
+  have hc : nsChar T ':' = false := by simp [nsChar, hT.not_word ':' (by simp)]
+  unfold splitNs
+  simp [hc, nsOk, nsOkAux]
+
+theorem splitNs_start {T : Tab} (hT : TabOk T) {C : Str} (hne : C ≠ []) (hall : ∀ c ∈ C, T.word c = true)
+    {tail : Str} (ht : tail = [] ∨ ∃ t, tail = '.' :: t) : splitNs T true (C ++ tail) = some (none, C ++ tail) := by
+  have hd : nsChar T '.' = false := by simp [nsChar, hT.not_word '.' (by simp)]
+  have halln : ∀ c ∈ C, nsChar T c = true := fun c hc => by simp [nsChar, hall c hc]
+  have dk : (C ++ tail).dropWhile (nsChar T) = tail := by
+    rcases ht with rfl | ⟨t, rfl⟩
+    · simpa using dropWhile_end halln
+    · exact dropWhile_stop halln hd t
+  cases C with
+  | nil => exact absurd rfl hne
+  | cons x xs =>
+    have hx : x ≠ ':' := by
+      intro e; subst e; have := hall ':' (by simp); rw [hT.not_word ':' (by simp)] at this; cases this
+    unfold splitNs
+    rw [dk]
+    have second : (match (x :: xs) ++ tail with
+        | ':' :: r5 => some ((none : Option Str), r5)
+        | _ => if true = true then some (none, (x :: xs) ++ tail) else none) = some (none, (x :: xs) ++ tail) := by
+      split
+      · rename_i r5 heq; simp at heq; exact absurd heq.1 hx
+      · rfl
+    rcases ht with rfl | ⟨t, rfl⟩
+    · split
+      · rename_i heq; cases heq
+      · exact second
+    · split
+      · rename_i heq; cases heq
+      · exact second
+
+theorem word_ne {T : Tab} (hT : TabOk T) {x : Char} (hx : T.word x = true) :
+    x ≠ '/' ∧ x ≠ ':' ∧ x ≠ '.' := by
+  refine ⟨?_, ?_, ?_⟩ <;> (intro e; subst e; rw [hT.not_word _ (by simp)] at hx; cases hx)
+
+theorem parseHead_of_stages {T : Tab} {s : Str} {a : Bool × Str} {b : Option Str × Str} {r3 : Str} {pos0 : Bool}
+    {ns : Option Str} {rest : Str} (h1 : stripScheme T s = a) (h2 : stripAuth T a.2 = b)
+    (h3 : stripSlash (!a.1 && b.1.isNone) b.2 = some (r3, pos0)) (h4 : splitNs T pos0 r3 = some (ns, rest)) :
+    parseHead T s = some { host := b.1.bind orNone, ns := ns, rest := rest } := by
+  subst h1; subst h2
+  unfold parseHead
+  simp only [h3, h4]
+
+/-- the printed head of a safe path is parsed back into its (cased) components, whatever
+    follows the class name (`tail` = end of text for class paths, `.` + keybindings for instance paths) -/
+theorem parseHead_printed {T : Tab} (hT : TabOk T) {fmt : Fmt} {h n : Option Str} {c : Str}
+    (hs : HeadSafe T fmt h n c) {tail : Str} (ht : tail = [] ∨ ∃ t, tail = '.' :: t) :
+    parseHead T (headStr T fmt h n c ++ tail) =
+      some { host := h.map (caseOf T fmt), ns := n.map (caseOf T fmt), rest := caseOf T fmt c ++ tail } := by
+  obtain ⟨hfmt, hhost, hns, hcls, hhist⟩ := hs
+  have wsl : T.word '/' = false := hT.not_word '/' (by simp)
+  have wco : T.word ':' = false := hT.not_word ':' (by simp)
+  have wdo : T.word '.' = false := hT.not_word '.' (by simp)
+  have wmi : T.word '-' = false := hT.not_word '-' (by simp)
+  have sc_sl : schemeChar T '/' = false := by simp [schemeChar, wsl]
+  have sc_co : schemeChar T ':' = false := by simp [schemeChar, wco]
+  have sc_do : schemeChar T '.' = false := by simp [schemeChar, wdo]
+  have au_sl : authChar T '/' = false := by simp [authChar, wsl]
+  -- the class name followed by the tail
+  generalize hC : caseOf T fmt c = C at hcls ⊢
+  obtain ⟨x, xs, rfl⟩ : ∃ x xs, C = x :: xs := by
+    cases C with
+    | nil => exact absurd rfl hcls.1
+    | cons x xs => exact ⟨x, xs, rfl⟩
+  have hxw : T.word x = true := hcls.2 x (by simp)
+  have hxne := word_ne hT hxw
+  -- text after the authority part: [N] ':' C tail
+  have afterSlash : ∀ (p0 : Bool), (n.isSome = true ∨ True) →
+      splitNs T p0 (optStr (n.map (caseOf T fmt)) ++ ':' :: ((x :: xs) ++ tail)) =
+        some (n.map (caseOf T fmt), (x :: xs) ++ tail) := by
+    intro p0 _
+    cases n with
+    | none => simpa [optStr] using splitNs_colon hT p0 _
+    | some m => simpa [optStr] using splitNs_some hT (hns m rfl).1 (hns m rfl).2 p0 _
+  cases h with
+  | some hh =>
+    -- "//" H "/" [N] ":" C tail   (standard, canonical, and historical with a namespace)
+    obtain ⟨hHne, hHall⟩ := hhost hh rfl
+    have hn' : fmt = .historical → n.isSome = true := fun e => hhist e rfl
+    have hcolon : (n.isSome || decide (fmt ≠ Fmt.historical)) = true := by
+      cases fmt <;> simp_all
+    have e : headStr T fmt (some hh) n c ++ tail =
+        '/' :: '/' :: (caseOf T fmt hh ++ '/' :: (optStr (n.map (caseOf T fmt)) ++ ':' :: ((x :: xs) ++ tail))) := by
+      simp only [headStr, hC, hcolon]
+      simp [hfmt]
+    rw [e]
+    generalize hR : optStr (n.map (caseOf T fmt)) ++ ':' :: ((x :: xs) ++ tail) = R at afterSlash ⊢
+    have h1 : stripScheme T ('/' :: '/' :: (caseOf T fmt hh ++ '/' :: R)) =
+        (false, '/' :: '/' :: (caseOf T fmt hh ++ '/' :: R)) := stripScheme_none (by intro r; simp [sc_sl])
+    have h2 : stripAuth T ('/' :: '/' :: (caseOf T fmt hh ++ '/' :: R)) = (some (caseOf T fmt hh), '/' :: R) := by
+      simp only [stripAuth, takeWhile_stop hHall au_sl, dropWhile_stop hHall au_sl]
+    have h3 : stripSlash (!false && (some (caseOf T fmt hh)).isNone) ('/' :: R) = some (R, false) := by simp [stripSlash]
+    exact (parseHead_of_stages h1 h2 h3 (afterSlash false (Or.inr trivial))).trans (by simp [orNone, hHne])
+  | none =>
+    cases hf : decide (fmt = .historical) with
+    | false =>
+      -- "/" [N] ":" C tail
+      have hf' : fmt ≠ .historical := by simpa using hf
+      have e : headStr T fmt none n c ++ tail =
+          '/' :: (optStr (n.map (caseOf T fmt)) ++ ':' :: ((x :: xs) ++ tail)) := by
+        simp only [headStr, hC]
+        simp [hfmt, hf']
+      rw [e]
+      have na : ∀ r, ('/' :: (optStr (n.map (caseOf T fmt)) ++ ':' :: ((x :: xs) ++ tail))) ≠ '/' :: '/' :: r := by
+        intro r he
+        cases n with
+        | none => simp [optStr] at he
+        | some m =>
+          have := hns m rfl
+          cases hm : caseOf T fmt m with
+          | nil => rw [hm] at this; exact absurd rfl (nsOk_ne_nil this.1)
+          | cons y ys => rw [hm] at this; simp [optStr, hm] at he; exact nsOk_head this.1 he.1
+      generalize hR : optStr (n.map (caseOf T fmt)) ++ ':' :: ((x :: xs) ++ tail) = R at afterSlash na ⊢
+      have h1 : stripScheme T ('/' :: R) = (false, '/' :: R) := stripScheme_none (by intro r; simp [sc_sl])
+      have h2 : stripAuth T ('/' :: R) = (none, '/' :: R) := stripAuth_none na
+      have h3 : stripSlash (!false && (none : Option Str).isNone) ('/' :: R) = some (R, false) := by simp [stripSlash]
+      exact (parseHead_of_stages h1 h2 h3 (afterSlash false (Or.inr trivial))).trans (by simp)
+    | true =>
+      have hf' : fmt = .historical := by simpa using hf
+      subst hf'
+      cases n with
+      | none =>
+        -- C tail
+        have e : headStr T .historical none none c ++ tail = (x :: xs) ++ tail := by
+          simp [headStr, hC, optStr]
+        rw [e]
+        have dk : ((x :: xs) ++ tail).dropWhile (schemeChar T) = tail := by
+          have hall : ∀ ch ∈ x :: xs, schemeChar T ch = true := fun ch hch => by simp [schemeChar, hcls.2 ch hch]
+          rcases ht with rfl | ⟨t, rfl⟩
+          · simpa using dropWhile_end hall
+          · exact dropWhile_stop hall sc_do t
+        have hss : stripSlash true ((x :: xs) ++ tail) = some ((x :: xs) ++ tail, true) := by
+          simp only [List.cons_append, stripSlash]
+          split
+          · rename_i r heq; simp at heq; exact absurd heq.1 hxne.1
+          · rfl
+        have h1 : stripScheme T ((x :: xs) ++ tail) = (false, (x :: xs) ++ tail) :=
+          stripScheme_none (by intro r; rw [dk]; rcases ht with rfl | ⟨t, rfl⟩ <;> simp)
+        have h2 : stripAuth T ((x :: xs) ++ tail) = (none, (x :: xs) ++ tail) :=
+          stripAuth_none (by intro r he; simp at he; exact hxne.1 he.1)
+        have h3 : stripSlash (!false && (none : Option Str).isNone) ((x :: xs) ++ tail) = some ((x :: xs) ++ tail, true) := by
+          simpa using hss
+        exact (parseHead_of_stages h1 h2 h3 (splitNs_start hT (by simp) hcls.2 ht)).trans (by simp)
+      | some m =>
+        -- N ":" C tail
+        obtain ⟨hNok, hNall⟩ := hns m rfl
+        generalize hN : caseOf T .historical m = N at hNok hNall
+        obtain ⟨y, ys, rfl⟩ : ∃ y ys, N = y :: ys := by
+          cases N with
+          | nil => exact absurd rfl (nsOk_ne_nil hNok)
+          | cons y ys => exact ⟨y, ys, rfl⟩
+        have hy : y ≠ '/' := nsOk_head hNok
+        have e : headStr T .historical none (some m) c ++ tail = (y :: ys) ++ ':' :: ((x :: xs) ++ tail) := by
+          simp [headStr, hC, hN, optStr]
+        rw [e]
+        have nosch : ∀ r, ((y :: ys) ++ ':' :: ((x :: xs) ++ tail)).dropWhile (schemeChar T) ≠ ':' :: '/' :: r := by
+          intro r he
+          rw [List.dropWhile_append] at he
+          split at he
+          · simp [sc_co] at he; exact hxne.1 he.1
+          · rename_i hne
+            cases hd : (y :: ys).dropWhile (schemeChar T) with
+            | nil => simp [hd] at hne
+            | cons z zs =>
+              rw [hd] at he
+              simp at he
+              have hz : z ∈ y :: ys := List.dropWhile_subset _ (by rw [hd]; simp)
+              have := hNall z hz
+              rw [he.1] at this
+              simp [nsChar, wco] at this
+        have hss : stripSlash true ((y :: ys) ++ ':' :: ((x :: xs) ++ tail)) =
+            some ((y :: ys) ++ ':' :: ((x :: xs) ++ tail), true) := by
+          simp only [List.cons_append, stripSlash]
+          split
+          · rename_i r heq; simp at heq; exact absurd heq.1 hy
+          · rfl
+        generalize hR : (x :: xs) ++ tail = R at nosch hss ⊢
+        have h1 : stripScheme T ((y :: ys) ++ ':' :: R) = (false, (y :: ys) ++ ':' :: R) := stripScheme_none nosch
+        have h2 : stripAuth T ((y :: ys) ++ ':' :: R) = (none, (y :: ys) ++ ':' :: R) :=
+          stripAuth_none (by intro r he; simp at he; exact hy he.1)
+        have h3 : stripSlash (!false && (none : Option Str).isNone) ((y :: ys) ++ ':' :: R) = some ((y :: ys) ++ ':' :: R, true) := by
+          simpa using hss
+        exact (parseHead_of_stages h1 h2 h3 (splitNs_some hT hNok hNall true R)).trans (by simp [hN])
+
+/-! ### reals: every `repr(float)` shape, after the exponent fix, is read back as a real -/
+
+def Digits (s : Str) : Prop := s ≠ [] ∧ ∀ c ∈ s, isDigit c = true
+
+/-- exponent part: empty or `e[+-]d+` -/
+def ExpOk (ex : Str) : Prop := ex = [] ∨ ∃ s ds, ex = 'e' :: s :: ds ∧ (s = '+' ∨ s = '-') ∧ Digits ds
+
+/-- `[-]d+.d+[e[+-]d+]` -/
+def Form1 (v : Str) : Prop :=
+  ∃ sg ip fp ex, (sg = [] ∨ sg = ['-']) ∧ Digits ip ∧ Digits fp ∧ ExpOk ex ∧ v = sg ++ (ip ++ '.' :: (fp ++ ex))
+
+theorem isExpPart_ok {x : Str} (h : isExpPart x = true) : ∃ s ds, x = 'e' :: s :: ds ∧ (s = '+' ∨ s = '-') ∧ Digits ds := by
+  unfold isExpPart at h
+  split at h
+  · rename_i s ds
+    simp only [Bool.and_eq_true, Bool.or_eq_true, beq_iff_eq, decide_eq_true_eq, List.all_eq_true] at h
+    exact ⟨s, ds, rfl, h.1.1, h.1.2, h.2⟩
+  · cases h
+
+theorem replaceChar_id {c : Char} {r : Str} : ∀ {s : Str}, c ∉ s → replaceChar c r s = s := by
+  intro s
+  induction s with
+  | nil => intro _; rfl
+  | cons x xs ih =>
+    intro h
+    simp only [List.mem_cons, not_or] at h
+    have hx : x ≠ c := fun e => h.1 e.symm
+    have := ih h.2
+    simp only [replaceChar, List.flatMap_cons, hx, if_false] at this ⊢
+    rw [this]; rfl
+
+theorem replaceChar_append (c : Char) (r a b : Str) : replaceChar c r (a ++ b) = replaceChar c r a ++ replaceChar c r b := by
+  simp [replaceChar, List.flatMap_append]
+
+theorem digits_no {s : Str} (h : ∀ c ∈ s, isDigit c = true) (x : Char) (hx : isDigit x = false) : x ∉ s := by
+  intro hm; rw [h x hm] at hx; cases hx
+
+/-- the shapes of `repr(float)` other than inf / nan become `[-]d+.d+[e[+-]d+]` -/
+theorem fixExp_form1 {r : Str} (h : isFloatRepr r = true) :
+    r = "inf".toList ∨ r = "-inf".toList ∨ r = "nan".toList ∨ Form1 (fixExp r) := by
+  unfold isFloatRepr at h
+  simp only [Bool.or_eq_true, beq_iff_eq, Bool.and_eq_true, decide_eq_true_eq] at h
+  rcases h with ((h | h) | h) | ⟨hip, hrest⟩
+  · exact Or.inl h
+  · exact Or.inr (Or.inl h)
+  · exact Or.inr (Or.inr (Or.inl h))
+  · right; right; right
+    -- sign and body
+    obtain ⟨sg, b, hsg, hr, hb⟩ : ∃ sg b, (sg = [] ∨ sg = ['-']) ∧ r = sg ++ b ∧ b = stripMinus r := by
+      cases r with
+      | nil => exact ⟨[], [], Or.inl rfl, rfl, rfl⟩
+      | cons x xs =>
+        by_cases hx : x = '-'
+        · subst hx; exact ⟨['-'], xs, Or.inr rfl, rfl, rfl⟩
+        · refine ⟨[], x :: xs, Or.inl rfl, rfl, ?_⟩
+          unfold stripMinus
+          split
+          · rename_i t heq; cases heq; exact absurd rfl hx
+          · rfl
+    rw [← hb] at hip hrest
+    have hsplit := List.takeWhile_append_dropWhile (p := isDigit) (l := b)
+    have hipd : Digits (b.takeWhile isDigit) := ⟨hip, fun c hc => by
+      have := List.all_takeWhile (l := b) (p := isDigit); exact List.all_eq_true.mp this c hc⟩
+    generalize b.takeWhile isDigit = ip at hsplit hipd hip
+    generalize hd : b.dropWhile isDigit = d at hsplit hrest
+    have hsg_e : 'e' ∉ sg ∧ '.' ∉ sg := by rcases hsg with rfl | rfl <;> simp
+    have hip_e : 'e' ∉ ip ∧ '.' ∉ ip := ⟨digits_no hipd.2 _ (by decide), digits_no hipd.2 _ (by decide)⟩
+    split at hrest
+    · -- d = '.' :: f
+      rename_i f
+      simp only [Bool.and_eq_true, decide_eq_true_eq, Bool.or_eq_true, beq_iff_eq] at hrest
+      obtain ⟨hfp, hex⟩ := hrest
+      have hsplit2 := List.takeWhile_append_dropWhile (p := isDigit) (l := f)
+      have hfpd : Digits (f.takeWhile isDigit) := ⟨hfp, fun c hc => by
+        have := List.all_takeWhile (l := f) (p := isDigit); exact List.all_eq_true.mp this c hc⟩
+      generalize f.takeWhile isDigit = fp at hsplit2 hfpd
+      generalize f.dropWhile isDigit = ex at hsplit2 hex
+      have hexok : ExpOk ex := by
+        rcases hex with hex | hex
+        · exact Or.inl hex
+        · exact Or.inr (isExpPart_ok hex)
+      have hrr : r = sg ++ (ip ++ '.' :: (fp ++ ex)) := by rw [hr, ← hsplit, ← hsplit2]
+      have hdot : r.contains '.' = true := by rw [hrr]; simp
+      refine ⟨sg, ip, fp, ex, hsg, hipd, hfpd, hexok, ?_⟩
+      unfold fixExp; rw [hdot]; simp [hrr]
+    · -- d = 'e' :: x : no fraction, `.0` is inserted
+      rename_i x
+      obtain ⟨s, ds, hx, hs, hds⟩ := isExpPart_ok hrest
+      cases hx
+      have hrr : r = sg ++ (ip ++ 'e' :: s :: ds) := by rw [hr, ← hsplit]
+      have hds_e : 'e' ∉ ds ∧ '.' ∉ ds := ⟨digits_no hds.2 _ (by decide), digits_no hds.2 _ (by decide)⟩
+      have hs_e : s ≠ 'e' ∧ s ≠ '.' := by rcases hs with rfl | rfl <;> decide
+      have he : r.contains 'e' = true := by rw [hrr]; simp
+      have hnd : r.contains '.' = false := by
+        rw [hrr]
+        simp only [List.contains_eq_mem, List.mem_append, List.mem_cons, decide_eq_false_iff_not, not_or]
+        exact ⟨hsg_e.2, hip_e.2, by decide, fun e => hs_e.2 e.symm, hds_e.2⟩
+      refine ⟨sg, ip, ['0'], 'e' :: s :: ds, hsg, hipd, ⟨by simp, by decide⟩, Or.inr ⟨s, ds, rfl, hs, hds⟩, ?_⟩
+      unfold fixExp
+      rw [he, hnd]
+      simp only [Bool.not_false, Bool.and_self, if_true]
+      rw [hrr, replaceChar_append, replaceChar_append, replaceChar_id hsg_e.1, replaceChar_id hip_e.1]
+      have : replaceChar 'e' ['.', '0', 'e'] ('e' :: s :: ds) = '.' :: '0' :: 'e' :: s :: ds := by
+        have h1 : replaceChar 'e' ['.', '0', 'e'] ('e' :: s :: ds) =
+            ['.', '0', 'e'] ++ replaceChar 'e' ['.', '0', 'e'] (s :: ds) := by simp [replaceChar]
+        have h2 : 'e' ∉ s :: ds := by
+          simp only [List.mem_cons, not_or]; exact ⟨fun e => hs_e.1 e.symm, hds_e.1⟩
+        rw [h1, replaceChar_id h2]; rfl
+      rw [this]; simp
+    · cases hrest
+
+/-! ### round trip, step 3: what comes back, and the documented limits (`PathSafe`) -/
+
+def lookupKV (T : Tab) (k : Str) : Keys → Option KeyVal
+  | .nil => none
+  | .cons k' v r => if T.foldS k' = T.foldS k then some v else lookupKV T k r
+
+theorem lookupFold_printKeys (T : Tab) (fmt : Fmt) (k : Str) : ∀ ks,
+    lookupFold T k (printKeys T fmt ks) = (lookupKV T k ks).map (printVal T fmt)
+  | .nil => rfl
+  | .cons k' v r => by
+    simp only [printKeys, lookupFold, lookupKV]
+    split
+    · rfl
+    · exact lookupFold_printKeys T fmt k r
+
+def sortedNames (T : Tab) (fmt : Fmt) (ks : Keys) : List Str := sortStrs (ks.names.map (caseOf T fmt))
+
+/-- keybindings in the order and spelling `to_wbem_uri` prints them -/
+def sortKeys (T : Tab) (fmt : Fmt) (ks : Keys) : Keys :=
+  Keys.ofList ((sortedNames T fmt ks).map (fun k => (k, (lookupKV T k ks).getD (.bool false))))
+
+mutual
+/-- the value `from_wbem_uri` gives back for a printed value -/
+def normVal (T : Tab) (fmt : Fmt) : KeyVal → KeyVal
+  | .real r => .real (fixExp r)
+  | .ref p => .ref (normPath T fmt p)
+  | .str s => .str s
+  | .bool b => .bool b
+  | .int i => .int i
+  | .dt s => .dt s
+/-- the path `from_wbem_uri(p.to_wbem_uri(fmt))` gives back: names in the case of the format, keybindings in
+    printing order, reals as the printed literal, references likewise (recursively); nothing else changes -/
+def normPath (T : Tab) (fmt : Fmt) : Path → Path
+  | .mk h n c ks => .mk (h.map (caseOf T fmt)) (n.map (caseOf T fmt)) (caseOf T fmt c) (sortKeys T fmt (normKeys T fmt ks))
+def normKeys (T : Tab) (fmt : Fmt) : Keys → Keys
+  | .nil => .nil
+  | .cons k v r => .cons k (normVal T fmt v) (normKeys T fmt r)
+end
+
+theorem normKeys_names (T : Tab) (fmt : Fmt) : ∀ ks, (normKeys T fmt ks).names = ks.names
+  | .nil => rfl
+  | .cons k v r => by simp [normKeys, Keys.names, normKeys_names T fmt r]
+
+theorem lookupKV_normKeys (T : Tab) (fmt : Fmt) (k : Str) : ∀ ks,
+    lookupKV T k (normKeys T fmt ks) = (lookupKV T k ks).map (normVal T fmt)
+  | .nil => rfl
+  | .cons k' v r => by
+    simp only [normKeys, lookupKV]
+    split
+    · rfl
+    · exact lookupKV_normKeys T fmt k r
+
+/-- the string is not itself a WBEM URI of an instance path (documented limit of untyped URIs) -/
+def NotUri (T : Tab) (s : Str) : Prop := fromUri T s = .error .valueError
+
+mutual
+/-- the documented limits of untyped WBEM URIs and the open findings, spelled out per value -/
+def ValSafe (T : Tab) (fmt : Fmt) : KeyVal → Prop
+  | .str s => (∀ c ∈ s, c ≠ '\n') ∧ NotUri T s ∧ dtAccepts s = false
+  | .bool _ => True
+  | .int _ => True
+  | .real r => isFloatRepr r = true
+  | .dt s => dtAccepts s = true ∧ (∀ c ∈ s, c ≠ '"' ∧ c ≠ '\\' ∧ c ≠ '\n') ∧ NotUri T s
+  | .ref p => PathSafe T fmt p
+def PathSafe (T : Tab) (fmt : Fmt) : Path → Prop
+  | .mk h n c ks => HeadSafe T fmt h n c ∧ ks ≠ .nil ∧ (foldNames T ks).Nodup ∧
+      (∀ k ∈ ks.names, caseOf T fmt k ≠ [] ∧ ∀ ch ∈ caseOf T fmt k, T.word ch = true) ∧ KeysSafe T fmt ks
+def KeysSafe (T : Tab) (fmt : Fmt) : Keys → Prop
+  | .nil => True
+  | .cons _ v r => ValSafe T fmt v ∧ KeysSafe T fmt r
+end
+
+/-! ### round trip, step 4: `_kbstr_to_cimval` on printed values -/
+
+theorem quote_head (b : Str) : (quote b).head? = some '"' := rfl
+theorem quote_last (b : Str) : (quote b).getLast? = some '"' := by
+  simp [quote, List.getLast?_cons, List.getLast?_append]
+theorem stripQuotes_quote (b : Str) : stripQuotes (quote b) = b := by
+  simp [stripQuotes, quote]
+
+theorem kbVal_quoted_ok {T : Tab} {rec : Str → Except PyExc Path} {b : Str} {p : Path}
+    (h : rec (unescape b) = .ok p) : kbVal T rec (quote b) = .ok (.ref p) := by
+  unfold kbVal
+  simp only [quote_head, quote_last, stripQuotes_quote, decide_true, Bool.and_self, if_true, h]
+
+theorem kbVal_quoted_ve {T : Tab} {rec : Str → Except PyExc Path} {b : Str}
+    (h : rec (unescape b) = .error .valueError) :
+    kbVal T rec (quote b) = if dtAccepts (unescape b) then .ok (.dt (unescape b)) else .ok (.str (unescape b)) := by
+  unfold kbVal
+  simp only [quote_head, quote_last, stripQuotes_quote, decide_true, Bool.and_self, if_true, h]
+
+theorem lowerS_ascii {T : Tab} (hT : TabOk T) : ∀ s : Str, (∀ c ∈ s, c.toNat < 128) → T.lowerS s = s.map lowerAscii := by
+  intro s
+  induction s with
+  | nil => intro _; rfl
+  | cons c r ih =>
+    intro h
+    have := ih (fun x hx => h x (by simp [hx]))
+    simp only [Tab.lowerS, List.flatMap_cons, List.map_cons] at this ⊢
+    rw [hT.lower_ascii c (h c (by simp)), this]; rfl
+
+/-- an unquoted value text that is no boolean goes on to the numeric recognisers -/
+theorem kbVal_unquoted_int (T : Tab) (rec : Str → Except PyExc Path) {v : Str} {x : Char} {xs : Str} (hv : v = x :: xs)
+    (h1 : x ≠ '"') (h2 : x ≠ '\'') (h3 : T.lowerS v ≠ "true".toList) (h4 : T.lowerS v ≠ "false".toList)
+    {i : Int} (hi : intLit v = some i) : kbVal T rec v = .ok (.int i) := by
+  subst hv
+  have h3' : T.lowerS (x :: xs) ≠ ['t', 'r', 'u', 'e'] := h3
+  have h4' : T.lowerS (x :: xs) ≠ ['f', 'a', 'l', 's', 'e'] := h4
+  unfold kbVal
+  simp [h1, h2, h3', h4', hi]
+
+theorem kbVal_bool {T : Tab} (hT : TabOk T) (rec : Str → Except PyExc Path) (b : Bool) :
+    kbVal T rec (boolStr b) = .ok (.bool b) := by
+  have e1 : T.lowerS "TRUE".toList = "true".toList := by rw [lowerS_ascii hT _ (by decide)]; decide
+  have e2 : T.lowerS "FALSE".toList = "false".toList := by rw [lowerS_ascii hT _ (by decide)]; decide
+  cases b
+  · unfold kbVal boolStr
+    simp only [Bool.false_eq_true, if_false, e2]
+    simp
+  · unfold kbVal boolStr
+    simp only [if_true, e1]
+    simp
+
+theorem pyInt_chars (i : Int) : ∃ x xs, pyInt i = x :: xs ∧ (isDigit x = true ∨ x = '-') ∧
+    ∀ c ∈ pyInt i, isDigit c = true ∨ c = '-' := by
+  obtain ⟨neg, n, e, _⟩ := pyInt_eq i
+  obtain ⟨h, t, ed, _, _⟩ := natDigitsF_head (n + 1) n (by omega)
+  have hall := natDigitsF_digits (n + 1) n
+  have en : natDigits n = h :: t := ed
+  cases neg
+  · refine ⟨h, t, by simp [e, en], Or.inl (hall h (by rw [ed]; simp)), ?_⟩
+    intro c hc; rw [e] at hc; simp at hc; exact Or.inl (hall c (by simpa [natDigits] using hc))
+  · refine ⟨'-', natDigits n, by simp [e], Or.inr rfl, ?_⟩
+    intro c hc; rw [e] at hc; simp at hc
+    rcases hc with rfl | hc
+    · exact Or.inr rfl
+    · exact Or.inl (hall c (by simpa [natDigits] using hc))
+
+theorem digit_or_minus_props {c : Char} (h : isDigit c = true ∨ c = '-') :
+    c.toNat < 128 ∧ lowerAscii c = c ∧ c ≠ 't' ∧ c ≠ 'f' ∧ c ≠ '"' ∧ c ≠ '\'' ∧ nqChar c = true ∧ c ≠ '\n' := by
+  rcases h with h | rfl
+  · simp only [isDigit, Bool.and_eq_true, decide_eq_true_eq] at h
+    have e0 : ('0' : Char).toNat = 48 := by decide
+    have e9 : ('9' : Char).toNat = 57 := by decide
+    rw [e0, e9] at h
+    have ne : ∀ d : Char, (d.toNat < 48 ∨ 57 < d.toNat) → c ≠ d := by
+      intro d hd e; subst e; omega
+    refine ⟨by omega, by simp [lowerAscii]; omega, ne _ (by decide), ne _ (by decide), ne _ (by decide), ne _ (by decide), ?_,
+      ne _ (by decide)⟩
+    have a1 := ne ',' (by decide); have a2 := ne '"' (by decide); have a3 := ne '\'' (by decide); have a4 := ne '\\' (by decide)
+    simp [nqChar, a1, a2, a3, a4]
+  · decide
+
+theorem kbVal_int {T : Tab} (hT : TabOk T) (rec : Str → Except PyExc Path) (i : Int) :
+    kbVal T rec (pyInt i) = .ok (.int i) := by
+  obtain ⟨x, xs, e, hx, hall⟩ := pyInt_chars i
+  have px := digit_or_minus_props hx
+  have hl : T.lowerS (pyInt i) = (pyInt i).map lowerAscii :=
+    lowerS_ascii hT _ (fun c hc => (digit_or_minus_props (hall c hc)).1)
+  have hne : ∀ w : Str, (w.head? = some 't' ∨ w.head? = some 'f') → T.lowerS (pyInt i) ≠ w := by
+    intro w hw heq
+    rw [hl, e] at heq
+    simp only [List.map_cons] at heq
+    rw [← heq, px.2.1] at hw
+    simp at hw
+    rcases hw with hw | hw
+    · exact px.2.2.1 hw
+    · exact px.2.2.2.1 hw
+  exact kbVal_unquoted_int T rec e px.2.2.2.2.1 px.2.2.2.2.2.1 (hne _ (Or.inl rfl)) (hne _ (Or.inr rfl)) (intLit_pyInt i)
+
+theorem tok_int (i : Int) : Tok (pyInt i) := by
+  obtain ⟨x, xs, e, _, hall⟩ := pyInt_chars i
+  exact tok_unquoted (by rw [e]; simp) (fun c hc => ⟨(digit_or_minus_props (hall c hc)).2.2.2.2.2.2.1,
+    (digit_or_minus_props (hall c hc)).2.2.2.2.2.2.2⟩)
+
+theorem tok_bool (b : Bool) : Tok (boolStr b) := by
+  cases b <;> exact tok_unquoted (by decide) (by decide)
+
+theorem isDigit_props {c : Char} (h : isDigit c = true) :
+    c.toNat < 128 ∧ lowerAscii c = c ∧ nqChar c = true ∧ c ≠ '\n' ∧ c ≠ 't' ∧ c ≠ 'f' ∧ c ≠ '"' ∧ c ≠ '\'' := by
+  have := digit_or_minus_props (Or.inl h)
+  exact ⟨this.1, this.2.1, this.2.2.2.2.2.2.1, this.2.2.2.2.2.2.2, this.2.2.1, this.2.2.2.1, this.2.2.2.2.1, this.2.2.2.2.2.1⟩
+
+theorem kbVal_unquoted_real (T : Tab) (rec : Str → Except PyExc Path) {v : Str} {x : Char} {xs : Str} (hv : v = x :: xs)
+    (h1 : x ≠ '"') (h2 : x ≠ '\'') (h3 : T.lowerS v ≠ "true".toList) (h4 : T.lowerS v ≠ "false".toList)
+    (hi : intLit v = none) (hr : realLit v = true) : kbVal T rec v = .ok (.real v) := by
+  subst hv
+  have h3' : T.lowerS (x :: xs) ≠ ['t', 'r', 'u', 'e'] := h3
+  have h4' : T.lowerS (x :: xs) ≠ ['f', 'a', 'l', 's', 'e'] := h4
+  unfold kbVal
+  simp [h1, h2, h3', h4', hi, hr]
+
+/-- a text whose first character is a digit or `-` is no boolean -/
+theorem lowerS_not_bool {T : Tab} (hT : TabOk T) {x : Char} {xs : Str} (hx : isDigit x = true ∨ x = '-')
+    (hall : ∀ c ∈ x :: xs, c.toNat < 128) :
+    T.lowerS (x :: xs) ≠ "true".toList ∧ T.lowerS (x :: xs) ≠ "false".toList := by
+  have px := digit_or_minus_props hx
+  rw [lowerS_ascii hT _ hall]
+  simp only [List.map_cons, px.2.1]
+  constructor <;> (intro e; simp at e; first | exact px.2.2.1 e.1 | exact px.2.2.2.1 e.1)
+
+theorem form1_chars {v : Str} (h : Form1 v) :
+    (∃ x xs, v = x :: xs ∧ (isDigit x = true ∨ x = '-')) ∧
+    (∀ c ∈ v, c.toNat < 128 ∧ nqChar c = true ∧ c ≠ '\n') ∧
+    (∀ l, v.getLast? = some l → isDigit l = true) := by
+  obtain ⟨sg, ip, fp, ex, hsg, hip, hfp, hex, rfl⟩ := h
+  obtain ⟨i0, is, rfl⟩ : ∃ i0 is, ip = i0 :: is := by
+    cases ip with
+    | nil => exact absurd rfl hip.1
+    | cons a b => exact ⟨a, b, rfl⟩
+  have hi0 : isDigit i0 = true := hip.2 i0 (by simp)
+  refine ⟨?_, ?_, ?_⟩
+  · rcases hsg with rfl | rfl
+    · exact ⟨i0, is ++ '.' :: (fp ++ ex), by simp, Or.inl hi0⟩
+    · exact ⟨'-', i0 :: (is ++ '.' :: (fp ++ ex)), by simp, Or.inr rfl⟩
+  · intro c hc
+    have good : ∀ d : Char, (isDigit d = true ∨ d = '-' ∨ d = '.' ∨ d = 'e' ∨ d = '+') →
+        d.toNat < 128 ∧ nqChar d = true ∧ d ≠ '\n' := by
+      intro d hd
+      rcases hd with hd | rfl | rfl | rfl | rfl
+      · have := isDigit_props hd; exact ⟨this.1, this.2.2.1, this.2.2.2.1⟩
+      all_goals decide
+    apply good
+    simp only [List.mem_append, List.mem_cons] at hc
+    rcases hc with hc | hc | rfl | hc | hc
+    · rcases hsg with rfl | rfl
+      · simp at hc
+      · simp at hc; subst hc; exact Or.inr (Or.inl rfl)
+    · exact Or.inl (hip.2 c (by simpa using hc))
+    · exact Or.inr (Or.inr (Or.inl rfl))
+    · exact Or.inl (hfp.2 c hc)
+    · rcases hex with rfl | ⟨s, ds, rfl, hs, hds⟩
+      · simp at hc
+      · simp only [List.mem_cons] at hc
+        rcases hc with rfl | rfl | hc
+        · exact Or.inr (Or.inr (Or.inr (Or.inl rfl)))
+        · rcases hs with rfl | rfl
+          · exact Or.inr (Or.inr (Or.inr (Or.inr rfl)))
+          · exact Or.inr (Or.inl rfl)
+        · exact Or.inl (hds.2 c hc)
+  · intro l hl
+    have hne : fp ++ ex ≠ [] := by simp [hfp.1]
+    have e1 : (sg ++ (i0 :: is ++ '.' :: (fp ++ ex))).getLast? = (fp ++ ex).getLast? := by
+      rw [List.getLast?_append, List.getLast?_append]
+      have : ('.' :: (fp ++ ex)).getLast? = (fp ++ ex).getLast? := by
+        cases hfe : fp ++ ex with
+        | nil => exact absurd hfe hne
+        | cons a b => simp [List.getLast?_cons_cons]
+      rw [this, List.getLast?_eq_some_getLast hne]; simp
+    rw [e1] at hl
+    rcases hex with rfl | ⟨s, ds, rfl, hs, hds⟩
+    · simp only [List.append_nil] at hl
+      exact hfp.2 l (List.mem_of_getLast? hl)
+    · rw [List.getLast?_append] at hl
+      have : ('e' :: s :: ds).getLast? = ds.getLast? := by
+        cases hd : ds with
+        | nil => exact absurd hd hds.1
+        | cons a b => simp [List.getLast?_cons_cons]
+      rw [this, List.getLast?_eq_some_getLast hds.1] at hl
+      simp at hl; subst hl
+      exact hds.2 _ (List.getLast_mem _)
+
+theorem splitSign_digit {h : Char} (t : Str) (hd : isDigit h = true) : splitSign (h :: t) = (false, h :: t) := by
+  have hne := isDigit_ne hd
+  unfold splitSign
+  split
+  · rename_i heq; cases heq; exact absurd rfl hne.1
+  · rename_i heq; cases heq; exact absurd rfl hne.2.1
+  · rfl
+
+theorem form1_lits {v : Str} (h : Form1 v) : intLit v = none ∧ realLit v = true := by
+  have hch := form1_chars h
+  obtain ⟨sg, ip, fp, ex, hsg, hip, hfp, hex, rfl⟩ := h
+  have hchomp : chomp (sg ++ (ip ++ '.' :: (fp ++ ex))) = sg ++ (ip ++ '.' :: (fp ++ ex)) :=
+    chomp_of_last (fun l hl => (isDigit_ne (hch.2.2 l hl)).2.2.2.2.1)
+  obtain ⟨i0, is, rfl⟩ : ∃ i0 is, ip = i0 :: is := by
+    cases ip with
+    | nil => exact absurd rfl hip.1
+    | cons a b => exact ⟨a, b, rfl⟩
+  have hi0 : isDigit i0 = true := hip.2 i0 (by simp)
+  have hsplit : ∃ neg, splitSign (sg ++ (i0 :: is ++ '.' :: (fp ++ ex))) = (neg, i0 :: (is ++ '.' :: (fp ++ ex))) := by
+    rcases hsg with rfl | rfl
+    · exact ⟨false, by simpa using splitSign_digit _ hi0⟩
+    · exact ⟨true, by simp [splitSign]⟩
+  obtain ⟨neg, hsp⟩ := hsplit
+  have hdotd : isDigit '.' = false := by decide
+  constructor
+  · -- no integer literal: the text contains a '.'
+    unfold intLit; rw [hchomp]
+    unfold intLitCore; rw [hsp]
+    simp only
+    have hlast : ∃ l, (i0 :: (is ++ '.' :: (fp ++ ex))).getLast? = some l ∧ isDigit l = true := by
+      have hne : (i0 :: (is ++ '.' :: (fp ++ ex))) ≠ [] := by simp
+      refine ⟨_, List.getLast?_eq_some_getLast hne, ?_⟩
+      apply hch.2.2
+      rcases hsg with rfl | rfl
+      · simpa using List.getLast?_eq_some_getLast hne
+      · have : (['-'] ++ (i0 :: is ++ '.' :: (fp ++ ex))).getLast? = (i0 :: (is ++ '.' :: (fp ++ ex))).getLast? := by
+          rw [List.getLast?_append]; simp [List.getLast?_eq_some_getLast hne]
+        rw [this]; exact List.getLast?_eq_some_getLast hne
+    obtain ⟨l, hl, hld⟩ := hlast
+    have hlne := isDigit_ne hld
+    rw [hl]
+    have hb : (l == 'b' || l == 'B') = false := by simp [hlne.2.2.1, hlne.2.2.2.1]
+    have hdot : '.' ∈ is ++ '.' :: (fp ++ ex) := by simp
+    have ht1 : (is ++ '.' :: (fp ++ ex)).all isOct17 = false := by
+      apply Bool.eq_false_iff.mpr; intro hall
+      have := List.all_eq_true.mp hall '.' hdot; revert this; decide
+    have ht2 : (is ++ '.' :: (fp ++ ex)).all isDigit = false := by
+      apply Bool.eq_false_iff.mpr; intro hall
+      have := List.all_eq_true.mp hall '.' hdot; revert this; decide
+    simp only [hb, Bool.false_and, Bool.false_eq_true, if_false, ht1, Bool.and_false, ht2]
+    split
+    · rfl
+    · split
+      · split
+        · rename_i x hs heq
+          have hx : isDigit x = true ∨ x = '.' := by
+            cases is with
+            | nil => simp at heq; exact Or.inr heq.1.symm
+            | cons a b => simp at heq; exact Or.inl (heq.1 ▸ hip.2 a (by simp))
+          have : (x == 'x' || x == 'X') = false := by
+            rcases hx with hx | rfl
+            · have e0 : ('0' : Char).toNat = 48 := by decide
+              have e9 : ('9' : Char).toNat = 57 := by decide
+              simp only [isDigit, Bool.and_eq_true, decide_eq_true_eq, e0, e9] at hx
+              have n1 : x ≠ 'x' := by intro e; subst e; revert hx; decide
+              have n2 : x ≠ 'X' := by intro e; subst e; revert hx; decide
+              simp [n1, n2]
+            · decide
+          simp [this]
+        · rfl
+      · rfl
+  · unfold realLit; rw [hchomp]
+    unfold realLitCore
+    simp only [Bool.or_eq_true]
+    right
+    rw [hsp]
+    simp only
+    have hipall : ∀ c ∈ i0 :: is, isDigit c = true := hip.2
+    have e0 : i0 :: (is ++ '.' :: (fp ++ ex)) = (i0 :: is) ++ '.' :: (fp ++ ex) := by simp
+    unfold realBody
+    rw [e0, dropWhile_stop hipall hdotd]
+    simp only
+    rcases hex with rfl | ⟨s, ds, rfl, hs, hds⟩
+    · simp only [List.append_nil, takeWhile_end hfp.2, dropWhile_end hfp.2]
+      simp [hfp.1]
+    · have hed : isDigit 'e' = false := by decide
+      rw [takeWhile_stop hfp.2 hed, dropWhile_stop hfp.2 hed]
+      have : splitSign (s :: ds) = (s == '-', ds) := by rcases hs with rfl | rfl <;> rfl
+      simp only [this]
+      simp [hfp.1, hds.1, List.all_eq_true.mpr hds.2]
+
+/-- **Reals survive**: for every text of a shape `repr(float)` produces, the printed literal (`.0` inserted before
+    a bare exponent) is one unquoted token and `_kbstr_to_cimval` reads it as a real (not as integer, boolean, datetime) -/
+theorem real_printed_ok {T : Tab} (hT : TabOk T) {r : Str} (h : isFloatRepr r = true) :
+    Tok (fixExp r) ∧ ∀ rec, kbVal T rec (fixExp r) = .ok (.real (fixExp r)) := by
+  have special : ∀ w : Str, (w = "inf".toList ∨ w = "-inf".toList ∨ w = "nan".toList) →
+      Tok w ∧ ∀ rec, kbVal T rec w = .ok (.real w) := by
+    intro w hw
+    have hall : ∀ c ∈ w, c.toNat < 128 := by rcases hw with rfl | rfl | rfl <;> decide
+    have hlow : T.lowerS w = w.map lowerAscii := lowerS_ascii hT w hall
+    refine ⟨?_, fun rec => ?_⟩
+    · rcases hw with rfl | rfl | rfl <;> exact tok_unquoted (by decide) (by decide)
+    · rcases hw with rfl | rfl | rfl
+      · exact kbVal_unquoted_real T rec rfl (by decide) (by decide) (by rw [hlow]; decide) (by rw [hlow]; decide) (by decide) (by decide)
+      · exact kbVal_unquoted_real T rec rfl (by decide) (by decide) (by rw [hlow]; decide) (by rw [hlow]; decide) (by decide) (by decide)
+      · exact kbVal_unquoted_real T rec rfl (by decide) (by decide) (by rw [hlow]; decide) (by rw [hlow]; decide) (by decide) (by decide)
+  have hfix_special : ∀ w : Str, (w = "inf".toList ∨ w = "-inf".toList ∨ w = "nan".toList) → fixExp w = w := by
+    intro w hw; rcases hw with rfl | rfl | rfl <;> decide
+  rcases fixExp_form1 h with h1 | h1 | h1 | hf
+  · rw [hfix_special r (Or.inl h1)]; exact special r (Or.inl h1)
+  · rw [hfix_special r (Or.inr (Or.inl h1))]; exact special r (Or.inr (Or.inl h1))
+  · rw [hfix_special r (Or.inr (Or.inr h1))]; exact special r (Or.inr (Or.inr h1))
+  · have hc := form1_chars hf
+    have hl := form1_lits hf
+    obtain ⟨x, xs, hv, hx⟩ := hc.1
+    have px := digit_or_minus_props hx
+    refine ⟨tok_unquoted (by rw [hv]; simp) (fun c hc' => ⟨(hc.2.1 c hc').2.1, (hc.2.1 c hc').2.2⟩), fun rec => ?_⟩
+    have hnb := lowerS_not_bool hT hx (fun c hc' => (hc.2.1 c (by rw [hv]; exact hc')).1)
+    rw [← hv] at hnb
+    exact kbVal_unquoted_real T rec hv px.2.2.2.2.1 px.2.2.2.2.2.1 hnb.1 hnb.2 hl.1 hl.2
+
+/-! ### round trip, step 5: the dictionaries -/
+
+theorem dictSet_new {k : Str} {v : KeyVal} : ∀ acc : List (Str × KeyVal), k ∉ acc.map (·.1) →
+    dictSet k v acc = acc ++ [(k, v)]
+  | [], _ => rfl
+  | (k', v') :: r, h => by
+    have h' : k' ≠ k ∧ k ∉ r.map (·.1) := by
+      simp only [List.map_cons, List.mem_cons, not_or] at h; exact ⟨fun e => h.1 e.symm, h.2⟩
+    simp [dictSet, h'.1, dictSet_new r h'.2]
+
+theorem dict_foldl : ∀ (l acc : List (Str × KeyVal)), ((acc ++ l).map (·.1)).Nodup →
+    l.foldl (fun a kv => dictSet kv.1 kv.2 a) acc = acc ++ l
+  | [], acc, _ => by simp
+  | kv :: r, acc, h => by
+    have hn : kv.1 ∉ acc.map (·.1) := by
+      simp only [List.map_append, List.map_cons, List.nodup_append, List.nodup_cons] at h
+      intro hm; exact h.2.2 _ hm _ (by simp) rfl
+    simp only [List.foldl_cons, dictSet_new acc hn]
+    rw [dict_foldl r (acc ++ [kv]) (by simpa using h)]; simp
+
+theorem ncSet_new {T : Tab} {k : Str} {v : KeyVal} : ∀ acc : List (Str × KeyVal),
+    T.foldS k ∉ acc.map (fun kv => T.foldS kv.1) → ncSet T k v acc = acc ++ [(k, v)]
+  | [], _ => rfl
+  | (k', v') :: r, h => by
+    have h' : T.foldS k' ≠ T.foldS k ∧ T.foldS k ∉ r.map (fun kv => T.foldS kv.1) := by
+      simp only [List.map_cons, List.mem_cons, not_or] at h; exact ⟨fun e => h.1 e.symm, h.2⟩
+    simp [ncSet, h'.1, ncSet_new r h'.2]
+
+theorem nc_foldl {T : Tab} : ∀ (l acc : List (Str × KeyVal)), ((acc ++ l).map (fun kv => T.foldS kv.1)).Nodup →
+    l.foldl (fun a kv => ncSet T kv.1 kv.2 a) acc = acc ++ l
+  | [], acc, _ => by simp
+  | kv :: r, acc, h => by
+    have hn : T.foldS kv.1 ∉ acc.map (fun kv => T.foldS kv.1) := by
+      simp only [List.map_append, List.map_cons, List.nodup_append, List.nodup_cons] at h
+      intro hm; exact h.2.2 _ hm _ (by simp) rfl
+    simp only [List.foldl_cons, ncSet_new acc hn]
+    rw [nc_foldl r (acc ++ [kv]) (by simpa using h)]; simp
+
+/-- keybindings whose names differ after casefold go through `{}` and NocaseDict unchanged -/
+theorem buildKeys_nodup {T : Tab} (kvs : List (Str × KeyVal)) (h : (kvs.map (fun kv => T.foldS kv.1)).Nodup) :
+    buildKeys T kvs = Keys.ofList kvs := by
+  have h1 : (kvs.map (·.1)).Nodup := by
+    have : kvs.map (fun kv => T.foldS kv.1) = (kvs.map (·.1)).map T.foldS := by simp [List.map_map, Function.comp_def]
+    rw [this] at h
+    exact List.Pairwise.of_map T.foldS (fun a b hab e => hab (by rw [e])) h
+  unfold buildKeys
+  simp only
+  rw [dict_foldl kvs [] (by simpa using h1)]
+  simp only [List.nil_append]
+  rw [nc_foldl kvs [] (by simpa using h)]
+  simp
+
+/-! ### round trip, step 6: assembly -/
+
+theorem kbVals_map {T : Tab} {rec : Str → Except PyExc Path} (g : Str × Str → KeyVal) :
+    ∀ items : List (Str × Str), (∀ kv ∈ items, kbVal T rec kv.2 = .ok (g kv)) →
+      kbVals T rec items = .ok (items.map (fun kv => (kv.1, g kv)))
+  | [], _ => rfl
+  | (k, v) :: r, h => by
+    have h1 := h (k, v) (by simp)
+    have h2 := kbVals_map g r (fun kv hkv => h kv (by simp [hkv]))
+    simp only at h1
+    simp only [kbVals, h1, h2, List.map_cons]
+
+theorem escape_len (s : Str) : s.length ≤ (escape s).length := by
+  induction s with
+  | nil => simp
+  | cons c r ih =>
+    rw [escape_cons]
+    have : 1 ≤ (escChar c).length := by unfold escChar; split <;> (try split) <;> simp
+    simp; omega
+
+theorem notUri_fuel {T : Tab} {s : Str} (h : NotUri T s) {m : Nat} (hm : s.length < m) :
+    fromUriF T m s = .error .valueError := by
+  unfold NotUri fromUri at h
+  rw [fromUriF_mono T (by omega : s.length + 1 ≤ m) (by rw [h]; intro e; cases e), h]
+
+/-- what the round-trip induction proves for one value -/
+def ValRT (T : Tab) (fmt : Fmt) (v : KeyVal) : Prop :=
+  Tok (printVal T fmt v) ∧
+  ∀ m, (printVal T fmt v).length ≤ m → kbVal T (fromUriF T m) (printVal T fmt v) = .ok (normVal T fmt v)
+
+def PathRT (T : Tab) (fmt : Fmt) (p : Path) : Prop :=
+  (∀ c ∈ toUri T fmt p, c ≠ '\n') ∧
+  ∀ n, (toUri T fmt p).length < n → fromUriF T n (toUri T fmt p) = .ok (normPath T fmt p)
+
+theorem fold_case {T : Tab} (hT : TabOk T) (fmt : Fmt) (k : Str) : T.foldS (caseOf T fmt k) = T.foldS k := by
+  unfold caseOf; split
+  · exact hT.fold_lower k
+  · rfl
+
+theorem lookupKV_exists {T : Tab} {k0 : Str} : ∀ ks : Keys, k0 ∈ ks.names → ∀ k, T.foldS k = T.foldS k0 →
+    ∃ v, lookupKV T k ks = some v
+  | .nil, h, _, _ => by simp [Keys.names] at h
+  | .cons k' v r, h, k, hk => by
+    simp only [lookupKV]
+    split
+    · exact ⟨v, rfl⟩
+    · rename_i hne
+      simp only [Keys.names, List.mem_cons] at h
+      rcases h with rfl | h
+      · exact absurd hk.symm hne
+      · exact lookupKV_exists r h k hk
+
+theorem quote_len (b : Str) : (quote b).length = b.length + 2 := by simp [quote]
+
+/-- one level of the round trip, given the facts about the values one level down -/
+theorem path_rt_step {T : Tab} (hT : TabOk T) {fmt : Fmt} {h n : Option Str} {c : Str} {ks : Keys}
+    (hhead : HeadSafe T fmt h n c) (hne : ks ≠ .nil) (hnd : (foldNames T ks).Nodup)
+    (hnames : ∀ k ∈ ks.names, caseOf T fmt k ≠ [] ∧ ∀ ch ∈ caseOf T fmt k, T.word ch = true)
+    (hvals : ∀ k v, lookupKV T k ks = some v → ValRT T fmt v) :
+    PathRT T fmt (.mk h n c ks) := by
+  -- the printed keybindings as (name, value text) items
+  let names := sortedNames T fmt ks
+  let items : List (Str × Str) := names.map (fun k => (k, (lookupFold T k (printKeys T fmt ks)).getD []))
+  have hmem : ∀ k ∈ names, ∃ k0 ∈ ks.names, k = caseOf T fmt k0 := by
+    intro k hk
+    have := (sortStrs_perm _).mem_iff.mp hk
+    simpa [eq_comm] using this
+  have hlook : ∀ k ∈ names, ∃ v, lookupKV T k ks = some v := by
+    intro k hk
+    obtain ⟨k0, hk0, rfl⟩ := hmem k hk
+    exact lookupKV_exists ks hk0 _ (fold_case hT fmt k0)
+  have hbody : bodyStr T fmt (printKeys T fmt ks) = '.' :: joinComma (items.map itemStr) := by
+    have hp : printKeys T fmt ks ≠ [] := fun e => hne ((printKeys_nil_iff T fmt ks).mp e)
+    unfold bodyStr
+    split
+    · rename_i e; exact absurd e hp
+    · simp only [items, names, sortedNames, List.map_map]
+      rw [← printKeys_names T fmt ks, List.map_map]
+      rfl
+  have hnames_ne : names ≠ [] := by
+    intro e
+    have hp := sortStrs_perm (ks.names.map (caseOf T fmt))
+    have : (sortedNames T fmt ks).length = (ks.names.map (caseOf T fmt)).length := hp.length_eq
+    simp only [names] at e
+    rw [e] at this
+    cases ks with
+    | nil => exact hne rfl
+    | cons k v r => simp [Keys.names] at this
+  have hitems_ne : items ≠ [] := by simpa [items] using hnames_ne
+  have hitem : ∀ kv ∈ items, (kv.1 ≠ [] ∧ ∀ ch ∈ kv.1, T.word ch = true) ∧ Tok kv.2 ∧
+      ∃ v, lookupKV T kv.1 ks = some v ∧ kv.2 = printVal T fmt v := by
+    intro kv hkv
+    simp only [items, List.mem_map] at hkv
+    obtain ⟨k, hk, rfl⟩ := hkv
+    obtain ⟨k0, hk0, rfl⟩ := hmem k hk
+    obtain ⟨v, hv⟩ := hlook _ hk
+    have e : (lookupFold T (caseOf T fmt k0) (printKeys T fmt ks)).getD [] = printVal T fmt v := by
+      rw [lookupFold_printKeys, hv]; rfl
+    exact ⟨hnames k0 hk0, by rw [e]; exact (hvals _ v hv).1, v, hv, e⟩
+  -- no newline in the keybinding text
+  have hkb_nonl : ∀ ch ∈ joinComma (items.map itemStr), ch ≠ '\n' := by
+    apply joinComma_nonl
+    intro x hx ch hch
+    simp only [List.mem_map] at hx
+    obtain ⟨kv, hkv, rfl⟩ := hx
+    obtain ⟨⟨_, hw⟩, ht, _⟩ := hitem kv hkv
+    simp only [itemStr, List.mem_append, List.mem_cons] at hch
+    rcases hch with hch | rfl | hch
+    · intro e; subst e; have := hw _ hch; rw [hT.not_word '\n' (by simp)] at this; cases this
+    · decide
+    · exact ht.nonl ch hch
+  generalize hkb : joinComma (items.map itemStr) = kb at hbody hkb_nonl
+  have hkb_ne : kb ≠ [] := by
+    intro e
+    have := joinComma_length (items.map itemStr) (by
+      intro x hx; simp only [List.mem_map] at hx; obtain ⟨kv, _, rfl⟩ := hx; simp [itemStr])
+    rw [hkb, e] at this
+    have h1 : 1 ≤ items.length := by
+      cases hi : items with
+      | nil => exact absurd hi hitems_ne
+      | cons a r => simp
+    -- a single item is non-empty, so the joined text is non-empty
+    cases hi : items with
+    | nil => exact absurd hi hitems_ne
+    | cons a r =>
+      have ha : itemStr a ≠ [] := by simp [itemStr]
+      have hl := mem_joinComma_len (items.map itemStr) (itemStr a) (by rw [hi]; simp)
+      rw [hkb, e] at hl
+      cases hs : itemStr a with
+      | nil => exact ha hs
+      | cons y ys => rw [hs] at hl; simp at hl
+  have huri : toUri T fmt (.mk h n c ks) = headStr T fmt h n c ++ '.' :: kb := by
+    simp only [toUri, hbody]
+  constructor
+  · -- no newline in the whole URI
+    intro ch hch
+    rw [huri] at hch
+    simp only [List.mem_append, List.mem_cons] at hch
+    rcases hch with hch | rfl | hch
+    · -- head: host / namespace / class characters and separators
+      intro e; subst e
+      have wnl : T.word '\n' = false := hT.not_word '\n' (by simp)
+      obtain ⟨hfmt, hhost, hns, hcls, _⟩ := hhead
+      simp only [headStr, List.mem_append] at hch
+      rcases hch with (((hch | hch) | hch) | hch) | hch
+      · cases h with
+        | none => simp at hch
+        | some hh =>
+          simp only [hfmt, ne_eq, not_false_eq_true, if_true, List.mem_cons] at hch
+          rcases hch with hch | hch | hch
+          · revert hch; decide
+          · revert hch; decide
+          · have := (hhost hh rfl).2 _ hch; simp [authChar, wnl] at this
+      · split at hch <;> simp at hch
+      · cases n with
+        | none => simp [optStr] at hch
+        | some m => have := (hns m rfl).2 _ (by simpa [optStr] using hch); simp [nsChar, wnl] at this
+      · split at hch <;> simp at hch
+      · have := hcls.2 _ hch; rw [wnl] at this; cases this
+    · decide
+    · exact hkb_nonl ch hch
+  · intro fuel hfuel
+    cases fuel with
+    | zero => omega
+    | succ m =>
+      have hph := parseHead_printed hT hhead (tail := '.' :: kb) (Or.inr ⟨kb, rfl⟩)
+      have hcw := hhead.cls
+      have hdot : T.word '.' = false := hT.not_word '.' (by simp)
+      have hsp : stepPrefix T (headStr T fmt h n c ++ '.' :: kb) =
+          some ({ host := h.map (caseOf T fmt), ns := n.map (caseOf T fmt), rest := caseOf T fmt c ++ '.' :: kb },
+                caseOf T fmt c, items) := by
+        unfold stepPrefix
+        simp only [hph, takeWhile_stop hcw.2 hdot, dropWhile_stop hcw.2 hdot]
+        have tk : kb.takeWhile (· != '\n') = kb := takeWhile_end (fun ch hch => by simpa using hkb_nonl ch hch)
+        have dk : kb.dropWhile (· != '\n') = [] := dropWhile_end (fun ch hch => by simpa using hkb_nonl ch hch)
+        have hsa : scanAssigns T (kb.length + 1) kb = some items := by
+          rw [← hkb]
+          apply scanAssigns_items hT items hitems_ne (fun kv hkv => ⟨(hitem kv hkv).1, (hitem kv hkv).2.1⟩)
+          have := joinComma_length (items.map itemStr) (by
+            intro x hx; simp only [List.mem_map] at hx; obtain ⟨kv, _, rfl⟩ := hx; simp [itemStr])
+          simpa using this
+        simp [tk, dk, hsa, hcw.1, hkb_ne, atEnd]
+      have hlen_kb : kb.length + 1 ≤ (toUri T fmt (.mk h n c ks)).length := by
+        rw [huri]; simp
+      -- every value text is read back as its normal form
+      have hvalsOk : ∀ kv ∈ items, kbVal T (fromUriF T m) kv.2 =
+          .ok ((fun kv : Str × Str => ((lookupKV T kv.1 ks).map (normVal T fmt)).getD (.bool false)) kv) := by
+        intro kv hkv
+        obtain ⟨_, _, v, hv, e⟩ := hitem kv hkv
+        have hl : kv.2.length ≤ m := by
+          have h1 := mem_joinComma_len (items.map itemStr) (itemStr kv) (List.mem_map_of_mem hkv)
+          rw [hkb] at h1
+          have h2 : kv.2.length ≤ (itemStr kv).length := by simp [itemStr]; omega
+          omega
+        simp only [hv, Option.map_some, Option.getD_some]
+        rw [e] at hl ⊢
+        exact (hvals _ v hv).2 m hl
+      have hkv := kbVals_map (T := T) (rec := fromUriF T m) _ items hvalsOk
+      rw [huri]
+      simp only [fromUriF, fromUriStep, hsp, hkv]
+      -- the dictionaries keep everything
+      have hpairs : items.map (fun kv => (kv.1, ((lookupKV T kv.1 ks).map (normVal T fmt)).getD (.bool false))) =
+          names.map (fun k => (k, (lookupKV T k (normKeys T fmt ks)).getD (.bool false))) := by
+        simp only [items, List.map_map]
+        apply List.map_congr_left
+        intro k _
+        simp [lookupKV_normKeys]
+      have hnd' : ((names.map (fun k => (k, (lookupKV T k (normKeys T fmt ks)).getD (.bool false)))).map
+          (fun kv => T.foldS kv.1)).Nodup := by
+        simp only [List.map_map, Function.comp_def]
+        have hp : (names.map T.foldS).Perm ((ks.names.map (caseOf T fmt)).map T.foldS) := (sortStrs_perm _).map _
+        have he : (ks.names.map (caseOf T fmt)).map T.foldS = foldNames T ks := by
+          simp [foldNames, List.map_map, Function.comp_def, fold_case hT]
+        rw [he] at hp
+        exact hp.nodup_iff.mpr hnd
+      rw [hpairs, buildKeys_nodup _ hnd']
+      simp only [normPath, sortKeys, sortedNames, normKeys_names]
+      rfl
+
+mutual
+theorem val_rt {T : Tab} (hT : TabOk T) (fmt : Fmt) : (v : KeyVal) → ValSafe T fmt v → ValRT T fmt v
+  | .str s, h => by
+    have h' : (∀ c ∈ s, c ≠ '\n') ∧ NotUri T s ∧ dtAccepts s = false := by simpa [ValSafe] using h
+    refine ⟨by simpa [printVal] using tok_quoted_escape h'.1, fun m hm => ?_⟩
+    simp only [printVal, quote_len] at hm ⊢
+    have hl := escape_len s
+    have hr : fromUriF T m (unescape (escape s)) = .error .valueError := by
+      rw [unescape_escape]; exact notUri_fuel h'.2.1 (by omega)
+    rw [kbVal_quoted_ve hr, unescape_escape, h'.2.2]; simp [normVal]
+  | .bool b, _ => ⟨by simpa [printVal] using tok_bool b, fun m _ => by simpa [printVal, normVal] using kbVal_bool hT _ b⟩
+  | .int i, _ => ⟨by simpa [printVal] using tok_int i, fun m _ => by simpa [printVal, normVal] using kbVal_int hT _ i⟩
+  | .real r, h => by
+    have h' := real_printed_ok hT (r := r) (by simpa [ValSafe] using h)
+    exact ⟨by simpa [printVal] using h'.1, fun m _ => by simpa [printVal, normVal] using h'.2 _⟩
+  | .dt s, h => by
+    have h' : dtAccepts s = true ∧ (∀ c ∈ s, c ≠ '"' ∧ c ≠ '\\' ∧ c ≠ '\n') ∧ NotUri T s := by simpa [ValSafe] using h
+    refine ⟨by simpa [printVal] using tok_quoted_plain h'.2.1, fun m hm => ?_⟩
+    simp only [printVal, quote_len] at hm ⊢
+    have hu : unescape s = s := unescape_plain s (fun c hc => (h'.2.1 c hc).2.1)
+    have hr : fromUriF T m (unescape s) = .error .valueError := by
+      rw [hu]; exact notUri_fuel h'.2.2 (by omega)
+    rw [kbVal_quoted_ve hr, hu, h'.1]; simp [normVal]
+  | .ref q, h => by
+    have h' : PathSafe T fmt q := by simpa [ValSafe] using h
+    have r := path_rt hT fmt q h'
+    refine ⟨by simpa [printVal, escapeRef_eq] using tok_quoted_escape r.1, fun m hm => ?_⟩
+    simp only [printVal, escapeRef_eq, quote_len] at hm ⊢
+    have hl := escape_len (toUri T fmt q)
+    have hr : fromUriF T m (unescape (escape (toUri T fmt q))) = .ok (normPath T fmt q) := by
+      rw [unescape_escape]; exact r.2 m (by omega)
+    rw [kbVal_quoted_ok hr]; simp [normVal]
+theorem path_rt {T : Tab} (hT : TabOk T) (fmt : Fmt) : (p : Path) → PathSafe T fmt p → PathRT T fmt p
+  | .mk h n c ks, hs => by
+    have hs' : HeadSafe T fmt h n c ∧ ks ≠ .nil ∧ (foldNames T ks).Nodup ∧
+      (∀ k ∈ ks.names, caseOf T fmt k ≠ [] ∧ ∀ ch ∈ caseOf T fmt k, T.word ch = true) ∧ KeysSafe T fmt ks := by
+      simpa [PathSafe] using hs
+    exact path_rt_step hT hs'.1 hs'.2.1 hs'.2.2.1 hs'.2.2.2.1 (keys_rt hT fmt ks hs'.2.2.2.2)
+theorem keys_rt {T : Tab} (hT : TabOk T) (fmt : Fmt) : (ks : Keys) → KeysSafe T fmt ks →
+    ∀ k v, lookupKV T k ks = some v → ValRT T fmt v
+  | .nil, _, k, v, h => by simp [lookupKV] at h
+  | .cons k' v' r, hs, k, v, h => by
+    have hs' : ValSafe T fmt v' ∧ KeysSafe T fmt r := by simpa [KeysSafe] using hs
+    simp only [lookupKV] at h
+    split at h
+    · cases h; exact val_rt hT fmt v' hs'.1
+    · exact keys_rt hT fmt r hs'.2 k v h
+end
+
+/-! ### the re-parsed path compares equal (`==`) to the original -/
+
+/-- what is assumed about CPython's `float()`: `same a b` stands for `float(a) == float(b)`; inserting `.0` before
+    the exponent does not change the value (NaN excluded: `nan != nan`) -/
+structure RealSem where
+  same : Str → Str → Prop
+  fix_same : ∀ r, isFloatRepr r = true → r ≠ "nan".toList → same (fixExp r) r
+
+mutual
+/-- model of `==` on keybinding values of the same kind (cross-type equalities such as `1 == 1.0` are not needed here) -/
+inductive ValEq (T : Tab) (R : RealSem) : KeyVal → KeyVal → Prop
+  | str {s} : ValEq T R (.str s) (.str s)
+  | bool {b} : ValEq T R (.bool b) (.bool b)
+  | int {i} : ValEq T R (.int i) (.int i)
+  | dt {s} : ValEq T R (.dt s) (.dt s)
+  | real {a b} : R.same a b → ValEq T R (.real a) (.real b)
+  | ref {p q} : PathEq T R p q → ValEq T R (.ref p) (.ref q)
+/-- mirrors CIMInstanceName.__eq__: host, namespace, class name by `lower()`, keybindings by NocaseDict.__eq__ -/
+inductive PathEq (T : Tab) (R : RealSem) : Path → Path → Prop
+  | mk {h h' n n' c c' ks ks'} : OptLowerEq T h h' → OptLowerEq T n n' → T.lowerS c = T.lowerS c' →
+      ks.names.length = ks'.names.length → KeysSub T R ks ks' → PathEq T R (.mk h n c ks) (.mk h' n' c' ks')
+/-- mirrors NocaseDict.__eq__: every item of the left has an equal partner (casefold lookup) in the right -/
+inductive KeysSub (T : Tab) (R : RealSem) : Keys → Keys → Prop
+  | nil {o} : KeysSub T R .nil o
+  | cons {k v r o v'} : lookupKV T k o = some v' → ValEq T R v v' → KeysSub T R r o → KeysSub T R (.cons k v r) o
+end
+
+mutual
+def NoNaNVal : KeyVal → Prop
+  | .real r => r ≠ "nan".toList
+  | .ref p => NoNaN p
+  | _ => True
+def NoNaN : Path → Prop
+  | .mk _ _ _ ks => NoNaNKeys ks
+def NoNaNKeys : Keys → Prop
+  | .nil => True
+  | .cons _ v r => NoNaNVal v ∧ NoNaNKeys r
+end
+
+theorem optLower_case_self {T : Tab} (hT : TabOk T) (fmt : Fmt) (o : Option Str) :
+    OptLowerEq T (o.map (caseOf T fmt)) o := by
+  cases o with
+  | none => trivial
+  | some x =>
+    simp only [Option.map_some, OptLowerEq, caseOf]
+    split
+    · exact hT.lower_idem x
+    · rfl
+
+theorem names_ofList_map (l : List Str) (g : Str → KeyVal) : (Keys.ofList (l.map (fun k => (k, g k)))).names = l := by
+  induction l with
+  | nil => rfl
+  | cons a r ih => simp [Keys.ofList, Keys.names, ih]
+
+theorem keysSub_sorted {T : Tab} {R : RealSem} {fmt : Fmt} {ks : Keys}
+    (hv : ∀ k v, lookupKV T k ks = some v → ValEq T R (normVal T fmt v) v) :
+    ∀ l : List Str, (∀ k ∈ l, ∃ v, lookupKV T k ks = some v) →
+      KeysSub T R (Keys.ofList (l.map (fun k => (k, (lookupKV T k (normKeys T fmt ks)).getD (.bool false))))) ks
+  | [], _ => .nil
+  | k :: r, h => by
+    obtain ⟨v, hk⟩ := h k (by simp)
+    simp only [List.map_cons, Keys.ofList]
+    refine .cons hk ?_ (keysSub_sorted hv r (fun k' hk' => h k' (by simp [hk'])))
+    rw [lookupKV_normKeys, hk]
+    exact hv k v hk
+
+mutual
+theorem val_eq {T : Tab} (hT : TabOk T) (R : RealSem) (fmt : Fmt) :
+    (v : KeyVal) → ValSafe T fmt v → NoNaNVal v → ValEq T R (normVal T fmt v) v
+  | .str s, _, _ => by simp only [normVal]; exact .str
+  | .bool b, _, _ => by simp only [normVal]; exact .bool
+  | .int i, _, _ => by simp only [normVal]; exact .int
+  | .dt s, _, _ => by simp only [normVal]; exact .dt
+  | .real r, h, hn => by
+    simp only [normVal]
+    exact .real (R.fix_same r (by simpa [ValSafe] using h) (by simpa [NoNaNVal] using hn))
+  | .ref q, h, hn => by
+    simp only [normVal]
+    exact .ref (path_eq hT R fmt q (by simpa [ValSafe] using h) (by simpa [NoNaNVal] using hn))
+theorem path_eq {T : Tab} (hT : TabOk T) (R : RealSem) (fmt : Fmt) :
+    (p : Path) → PathSafe T fmt p → NoNaN p → PathEq T R (normPath T fmt p) p
+  | .mk h n c ks, hs, hn => by
+    have hs' : HeadSafe T fmt h n c ∧ ks ≠ .nil ∧ (foldNames T ks).Nodup ∧
+      (∀ k ∈ ks.names, caseOf T fmt k ≠ [] ∧ ∀ ch ∈ caseOf T fmt k, T.word ch = true) ∧ KeysSafe T fmt ks := by
+      simpa [PathSafe] using hs
+    have hv := keys_eq hT R fmt ks hs'.2.2.2.2 (by simpa [NoNaN] using hn)
+    simp only [normPath, sortKeys]
+    have hc : T.lowerS (caseOf T fmt c) = T.lowerS c := by
+      unfold caseOf; split
+      · exact hT.lower_idem c
+      · rfl
+    refine .mk (optLower_case_self hT fmt h) (optLower_case_self hT fmt n) hc ?_ ?_
+    · rw [names_ofList_map]
+      simp only [sortedNames, normKeys_names]
+      have := (sortStrs_perm (ks.names.map (caseOf T fmt))).length_eq
+      simpa using this
+    · apply keysSub_sorted hv
+      intro k hk
+      simp only [sortedNames, normKeys_names] at hk
+      have := (sortStrs_perm _).mem_iff.mp hk
+      simp only [List.mem_map] at this
+      obtain ⟨k0, hk0, rfl⟩ := this
+      exact lookupKV_exists ks hk0 _ (fold_case hT fmt k0)
+theorem keys_eq {T : Tab} (hT : TabOk T) (R : RealSem) (fmt : Fmt) :
+    (ks : Keys) → KeysSafe T fmt ks → NoNaNKeys ks → ∀ k v, lookupKV T k ks = some v → ValEq T R (normVal T fmt v) v
+  | .nil, _, _, k, v, h => by simp [lookupKV] at h
+  | .cons k' v' r, hs, hn, k, v, h => by
+    have hs' : ValSafe T fmt v' ∧ KeysSafe T fmt r := by simpa [KeysSafe] using hs
+    have hn' : NoNaNVal v' ∧ NoNaNKeys r := by simpa [NoNaNKeys] using hn
+    simp only [lookupKV] at h
+    split at h
+    · cases h; exact val_eq hT R fmt v' hs'.1 hn'.1
+    · exact keys_eq hT R fmt r hs'.2 hn'.2 k v h
+end
+
+/-! ### executable comparison of paths, for the witnesses -/
+
+mutual
+def valBeq : KeyVal → KeyVal → Bool
+  | .str a, .str b => a == b
+  | .bool a, .bool b => a == b
+  | .int a, .int b => a == b
+  | .real a, .real b => a == b
+  | .dt a, .dt b => a == b
+  | .ref p, .ref q => pathBeq p q
+  | _, _ => false
+def pathBeq : Path → Path → Bool
+  | .mk h n c ks, .mk h' n' c' ks' => h == h' && n == n' && c == c' && keysBeq ks ks'
+def keysBeq : Keys → Keys → Bool
+  | .nil, .nil => true
+  | .cons k v r, .cons k' v' r' => k == k' && valBeq v v' && keysBeq r r'
+  | _, _ => false
+end
+
+/-- the parser's answer is exactly the path `q` -/
+def okIs (r : Except PyExc Path) (q : Path) : Bool :=
+  match r with
+  | .ok p => pathBeq p q
+  | .error _ => false
+
+def isValueError {α : Type} (r : Except PyExc α) : Bool :=
+  match r with
+  | .error .valueError => true
+  | _ => false
 
 end Proofs.Uri
